@@ -33,6 +33,13 @@ fn holds(src: &str, mode: &str, needle: &str) -> bool {
             Ok(Err(e)) => capi::err_messages(&e).iter().any(|m| m.contains(needle)),
             _ => false,
         },
+        "reject-only" => match crate::runner::guard(|| capi::compile_single(src).map(|c| capi::go_text(&c))) {
+            Ok(Err(e)) => {
+                let ms = capi::err_messages(&e);
+                !ms.is_empty() && ms.iter().all(|m| m.contains(needle)) && capi::err_stage(&e) == "typer"
+            }
+            _ => false,
+        },
         _ => false,
     }
 }
